@@ -128,6 +128,98 @@ def hash_matches(data, width=48, mask=0x7fff):
     return out
 
 
+def simulate_cuts(data, lo=8192, hi=131072, width=48, mask=0x7fff):
+    """chunk end offsets the automatic chunker is expected to produce for one write of `data`, including the
+    re-fed byte after a refused (below-minimum) match and the window reset at every chunk end.  Used only to
+    *place* crafted inputs relative to chunk starts; the oracle stays the equality between runs."""
+    T = _table()
+    def rol(v, s):
+        s %= 32
+        return v if s == 0 else ((v << s) | (v >> (32 - s))) & 0xffffffff
+    cuts = []; n = len(data)
+    win = []; h = 0; start = 0; i = 0
+    def feed(b):
+        nonlocal h, win
+        if len(win) < width:
+            win.append(b)
+            if len(win) < width:
+                h ^= rol(T[b], width - len(win)); return 1
+            h ^= T[b]; return h
+        old = win.pop(0); win.append(b)
+        h = rol(h, 1) ^ rol(T[old], width) ^ T[b]
+        return h
+    while i < n:
+        r = feed(data[i])
+        if (r & mask) == 0 or i - start >= hi:
+            if i - start < lo:
+                feed_again = True      # refused: the same byte is fed once more (loop continues with i unchanged)
+                r2 = feed(data[i])
+                # the second feed may itself match or not; the code loops until a non-matching feed advances i
+                while (r2 & mask) == 0 and i - start < lo:
+                    r2 = feed(data[i])
+                i += 1
+                continue
+            cuts.append(i); start = i; win = []; h = 0
+            continue                    # byte i is the first byte of the next chunk (fed to the fresh window)
+        i += 1
+    return cuts
+
+
+def natural_hit_suffix(prefix48, rnd, width=48, mask=0x7fff):
+    """two bytes (x, y) such that the plain rolling hash of the last `width` bytes of prefix48 + x + y is a match"""
+    T = _table()
+    def rol(v, s):
+        s %= 32
+        return v if s == 0 else ((v << s) | (v >> (32 - s))) & 0xffffffff
+    w = prefix48[-(width - 2):]
+    base = 0
+    for k, b in enumerate(w):
+        base ^= rol(T[b], width - 1 - k)
+    order = list(range(256)); rnd.shuffle(order)
+    for x in order:
+        hx = base ^ rol(T[x], 1)
+        for y in order:
+            if ((hx ^ T[y]) & mask) == 0:
+                return bytes([x, y])
+    return None
+
+
+def double_hit_contents(rnd, tier, lo=8192):
+    """contents in which a chunk that does NOT start the stream has a natural match d1 bytes below the effective
+    minimum (refused) and another one d2 bytes above it whose window overlaps the first: whether the second one
+    ends the chunk depends on the exact hash state carried across the refused match"""
+    out = []
+    pairs = [(-20, 10), (-47, 0), (-1, 40), (-30, 1)] if tier == "quick" else [(a, b) for a in (-47, -40, -30, -20, -10, -1) for b in (0, 1, 10, 25, 40) if b - a < 48]
+    for d1, d2 in pairs:
+        for attempt in range(20):
+            A = bytes(rnd.getrandbits(8) for _ in range(60000))
+            cutsA = simulate_cuts(A)
+            if not cutsA:
+                continue
+            c = cutsA[rnd.randrange(len(cutsA))]
+            first = A[c]                              # the byte whose match ends A's last chunk is the first byte of the next one
+            A = A[:c]
+            B = bytearray(rnd.getrandbits(8) for _ in range(lo + d1 - 1)); B[0] = first
+            s1 = natural_hit_suffix(bytes(B), rnd)
+            if s1 is None:
+                continue
+            B += s1                                   # natural match at offset lo + d1 of the chunk
+            B += bytes(rnd.getrandbits(8) for _ in range(d2 - d1 - 2))
+            s2 = natural_hit_suffix(bytes(B), rnd)
+            if s2 is None:
+                continue
+            B += s2                                   # natural match at offset lo + d2
+            if any(c < lo + d1 for c in [x for x in hash_matches(bytes(B))]):
+                continue                              # an earlier natural match would blur the picture
+            tail = bytes(rnd.getrandbits(8) for _ in range(180000))
+            whole = A + bytes(B) + tail
+            if len(A) not in simulate_cuts(whole):
+                continue
+            out.append(("dbl%+d%+d" % (d1, d2), whole))
+            break
+    return out
+
+
 def crafted_contents(rnd, tier):
     """contents whose first chunk boundary falls just above the effective minimum (8192 + d), and contents
     with an early (refused) match followed by a long run without matches (forced cut at the maximum)"""
@@ -152,4 +244,5 @@ def crafted_contents(rnd, tier):
             piece = stream[start:start + 8000]
             out.append(("early-match-then-zeros", piece + bytes(300000) + stream[:50000]))
             break
+    out += double_hit_contents(rnd, tier)
     return out
